@@ -196,10 +196,10 @@ pub fn run(env: &Env, rec: &Recorder, w: Which) -> (String, Vec<&'static str>)
     // ---- in-process part
     let (q, t) = match w
     {
-        Which::C10 => (8_000, 500_000),
-        Which::C11 => (6_000, 400_000),
-        Which::C13 => (7_000, 450_000),
-        Which::C14 => (7_000, 450_000),
+        Which::C10 => (32_000, 1_500_000),
+        Which::C11 => (24_000, 1_200_000),
+        Which::C13 => (28_000, 1_200_000),
+        Which::C14 => (28_000, 1_200_000),
     };
     let p2 = p.clone();
     let st2 = structured;
@@ -216,15 +216,18 @@ pub fn run(env: &Env, rec: &Recorder, w: Which) -> (String, Vec<&'static str>)
         let (cfg, f) = case;
         let mut o = CaseOutcome::default();
         let r = render_file(f, cfg);
-        let entries = breadlog::verif::find(&r.text, cfg.is_structured(), &cfg.macro_pairs());
         o.evals = r.stmts.len() as u64 + r.decoys.len() as u64;
-        o.deviations = model_check::check_entries(&r, cfg, &entries);
+        match crate::hook::find(&r.text, cfg.is_structured(), &cfg.macro_pairs())
+        {
+            Ok(entries) => o.deviations = model_check::check_entries(&r, cfg, &entries),
+            Err(m) => o.fail("panic", format!("the parser panicked: {}", m)),
+        }
         classify(w, cfg, &r, f, &mut o);
         o.sample = Some(json!({"config_macros": cfg.macro_pairs(), "structured": cfg.is_structured(), "file": crate::engine::truncate(&r.text, 1200)}));
         o
     });
     // ---- CLI part
-    let (q, t) = (250, 12_000);
+    let (q, t) = (1_000, 30_000);
     let p4 = p.clone();
     let st4 = structured;
     let strat_cli = move || model_tree(st4, p4.clone(), 3, max_items.min(8), decoys);
